@@ -205,7 +205,7 @@ namespace c16
       const bool simplex = rm.simplex;
       int need = TeTag::bdeg(simplex) + TrTag::bdeg(simplex) + (rm.cells_affine ? 0 : dim - 1);
       const int cap = cub_cap(rm);
-      cubdeg = std::min(cap, need + t.range(0, 3));
+      cubdeg = std::min(cap, need + t.range(0, dim == 2 ? 3 : 1));
       cubname = "auto-degree:" + std::to_string(cubdeg);
       pat = same ? t.pick({3, 1, 1, 3, 1, 1}) : t.pick({4, 1, 1});
       accumulate = t.flag(1, 4); xseed = t.raw(); sseed = t.flag(1, 3) ? (t.raw() | 1u) : 0u;
@@ -282,6 +282,8 @@ namespace c16
   {
     MeshOpts o; o.dim = Shape_::dimension; o.simplex = simplex_; o.max_n = (o.dim == 2 ? 4 : 2);
     const int which = t.pick({3, 3, 2, 2, 1, 2, 2, 2, 2, 2});
+    // work bound: pairs with many local dofs get fewer cells (3D: lagrange3 has 64 resp. 20 local dofs)
+    if(o.dim == 3) o.max_cells = (which == 8 || which == 9) ? 2 : ((which == 1 || which == 2 || which == 4 || which == 5) ? 4 : 8);
     RawMesh rm = gen_mesh(t, o);
     if(which < 5) bilin_pairs_a<Shape_>(t, c, rm, which); else bilin_pairs_b<Shape_>(t, c, rm, which);
   }
